@@ -20,6 +20,7 @@ type runOpts struct {
 	all                  bool
 	verbose              bool
 	maxPaths             int
+	lemmas               []LemmaDecl
 }
 
 type FuncResult struct {
@@ -79,6 +80,16 @@ func verifyFuncs(p *Program, keys []string, o runOpts) []*FuncResult {
 	}
 	var results []*FuncResult
 	var rmu sync.Mutex
+	for _, l := range o.lemmas {
+		fr := &FuncResult{Fn: "lemma " + l.Name}
+		results = append(results, fr)
+		fr.Errs = verifyLemma(p, l, func(ob *Obligation) {
+			fr.Obls = append(fr.Obls, ob)
+			if ob.Query != "" {
+				jobs <- ob
+			}
+		})
+	}
 	var fwg sync.WaitGroup
 	sem := make(chan struct{}, 4)
 	for _, k := range keys {
